@@ -99,12 +99,18 @@ Definition E_EDGE_NOT_FOUND := 2.
 Definition E_BAD_SOURCE := 3.
 Definition E_BAD_TARGET := 4.
 
-(* ---------- id allocation: free_ids.pop() else next_id++ ---------- *)
-Definition alloc (free : list N) (next : N) : N * list N * N :=
-  match free with
-  | id :: r => (id, r, next)
-  | [] => (next, [], next + 1)
-  end.
+(* ---------- id allocation: free_ids.pop() else next_id++ ----------
+   Which free id is popped depends on the order in which delete_node walked the
+   adjacency slices, i.e. on the position std's binary search picks among equal keys.
+   The model does not fix that order: it takes any id of the free list, namely the one
+   the implementation reported ([hint]); a hint that is not on the free list is ignored.
+   Every theorem holds for every hint, hence for the implementation's pop order. *)
+Definition alloc (free : list N) (next : N) (hint : N) : N * list N * N :=
+  if memN hint free then (hint, set_rem hint free, next)
+  else match free with
+       | id :: r => (id, r, next)
+       | [] => (next, [], next + 1)
+       end.
 
 Definition live_n (s : nstate) (n : N) : bool :=
   match nodes s n with Some _ => true | None => false end.
@@ -114,8 +120,8 @@ Definition live_e (s : estate) (e : N) : bool := negb (zero2 (endp s e)).
 (* ---------- node operations ---------- *)
 (* create_node_with_labels / create_node_with_properties / create_node_stub:
    [cols] says whether the properties are also written to the column store. *)
-Definition create_node (s : nstate) (labels : list N) (ps : props) (cols : bool) : nstate * N :=
-  let '(id, fr, nx) := alloc (free_nodes s) (next_node s) in
+Definition create_node (s : nstate) (hint : N) (labels : list N) (ps : props) (cols : bool) : nstate * N :=
+  let '(id, fr, nx) := alloc (free_nodes s) (next_node s) hint in
   let ls := dedup labels in
   ({| nodes := upd (nodes s) id (Some {| n_labels := ls; n_props := pset_all ps [] |});
       ncols := if cols then upd (ncols s) id (pset_all ps (ncols s id)) else ncols s;
@@ -181,8 +187,8 @@ Definition get_edge (s : estate) (e : N) : option (N * N * N * props) :=
   else None.
 
 (* create_edge / create_edge_with_properties / create_edge_stub after endpoint validation *)
-Definition add_edge (s : estate) (a b t : N) (ps : props) (stub : bool) : estate * N :=
-  let '(id, fr, nx) := alloc (free_edges s) (next_edge s) in
+Definition add_edge (s : estate) (hint a b t : N) (ps : props) (stub : bool) : estate * N :=
+  let '(id, fr, nx) := alloc (free_edges s) (next_edge s) hint in
   ({| endp := upd (endp s) id (a, b);
       etype := upd (etype s) id (Some t);
       eprops := match ps with [] => eprops s | _ => upd (eprops s) id (Some (pset_all ps [])) end;
@@ -195,10 +201,10 @@ Definition add_edge (s : estate) (a b t : N) (ps : props) (stub : bool) : estate
       fout := fout s; fin := fin s; fdead := fdead s;
       unsorted := unsorted s || stub; tstale := tstale s || stub |}, id).
 
-Definition create_edge (s : state) (a b t : N) (ps : props) (stub : bool) : state * res :=
+Definition create_edge (s : state) (hint a b t : N) (ps : props) (stub : bool) : state * res :=
   if negb (live_n (ns s) a) then (s, RErr E_BAD_SOURCE)
   else if negb (live_n (ns s) b) then (s, RErr E_BAD_TARGET)
-  else let '(es', id) := add_edge (es s) a b t ps stub in
+  else let '(es', id) := add_edge (es s) hint a b t ps stub in
        ({| ns := ns s; es := es' |}, ROk id).
 
 Definition not_entry (n e : N) (x : aent) : bool := negb (N.eqb (a_node x) n && N.eqb (a_eid x) e).
@@ -303,17 +309,17 @@ Definition delete_node (s : state) (id : N) : state * res :=
 
 (* ---------- operations ---------- *)
 Inductive op :=
-| CreateNode (labels : list N)
-| CreateNodeP (labels : list N) (ps : props)
-| CreateNodeStub (label : N)
+| CreateNode (hint : N) (labels : list N)
+| CreateNodeP (hint : N) (labels : list N) (ps : props)
+| CreateNodeStub (hint : N) (label : N)
 | SetNodeProp (id k v : N)
 | RemoveNodeProp (id k : N)
 | AddLabel (id l : N)
 | RemoveLabel (id l : N)
 | DeleteNode (id : N)
-| CreateEdge (a b t : N)
-| CreateEdgeP (a b t : N) (ps : props)
-| CreateEdgeStub (a b t : N)
+| CreateEdge (hint a b t : N)
+| CreateEdgeP (hint a b t : N) (ps : props)
+| CreateEdgeStub (hint a b t : N)
 | SetEdgeProp (e k v : N)
 | RemoveEdgeProp (e k : N)
 | DeleteEdge (e : N)
@@ -327,17 +333,17 @@ Definition on_es (s : state) (r : estate * res) : state * res :=
 
 Definition step (s : state) (o : op) : state * res :=
   match o with
-  | CreateNode ls => let '(n', id) := create_node (ns s) ls [] false in on_ns s (n', ROk id)
-  | CreateNodeP ls ps => let '(n', id) := create_node (ns s) ls ps true in on_ns s (n', ROk id)
-  | CreateNodeStub l => let '(n', id) := create_node (ns s) [l] [] false in on_ns s (n', ROk id)
+  | CreateNode h ls => let '(n', id) := create_node (ns s) h ls [] false in on_ns s (n', ROk id)
+  | CreateNodeP h ls ps => let '(n', id) := create_node (ns s) h ls ps true in on_ns s (n', ROk id)
+  | CreateNodeStub h l => let '(n', id) := create_node (ns s) h [l] [] false in on_ns s (n', ROk id)
   | SetNodeProp id k v => on_ns s (set_nprop (ns s) id k v)
   | RemoveNodeProp id k => on_ns s (rem_nprop (ns s) id k, ROk 0)
   | AddLabel id l => on_ns s (add_label (ns s) id l)
   | RemoveLabel id l => on_ns s (rem_label (ns s) id l)
   | DeleteNode id => delete_node s id
-  | CreateEdge a b t => create_edge s a b t [] false
-  | CreateEdgeP a b t ps => create_edge s a b t ps false
-  | CreateEdgeStub a b t => create_edge s a b t [] true
+  | CreateEdge h a b t => create_edge s h a b t [] false
+  | CreateEdgeP h a b t ps => create_edge s h a b t ps false
+  | CreateEdgeStub h a b t => create_edge s h a b t [] true
   | SetEdgeProp e k v => on_es s (set_eprop (es s) e k v)
   | RemoveEdgeProp e k => on_es s (rem_eprop (es s) e k, ROk 0)
   | DeleteEdge e => on_es s (delete_edge (es s) e)
@@ -441,9 +447,9 @@ Definition lg_step (g : lgraph) (o : op) (r : res) : lgraph :=
   let setn id nd := {| lnodes := upd (lnodes g) id nd; lrels := lrels g |} in
   let setr e x := {| lnodes := lnodes g; lrels := upd (lrels g) e x |} in
   match o, r with
-  | CreateNode ls, ROk id => setn id (Some {| n_labels := dedup ls; n_props := [] |})
-  | CreateNodeP ls ps, ROk id => setn id (Some {| n_labels := dedup ls; n_props := pset_all ps [] |})
-  | CreateNodeStub l, ROk id => setn id (Some {| n_labels := [l]; n_props := [] |})
+  | CreateNode _ ls, ROk id => setn id (Some {| n_labels := dedup ls; n_props := [] |})
+  | CreateNodeP _ ls ps, ROk id => setn id (Some {| n_labels := dedup ls; n_props := pset_all ps [] |})
+  | CreateNodeStub _ l, ROk id => setn id (Some {| n_labels := [l]; n_props := [] |})
   | SetNodeProp id k v, ROk _ =>
       match lnodes g id with
       | Some nd => setn id (Some {| n_labels := n_labels nd; n_props := pset k v (n_props nd) |})
@@ -467,9 +473,9 @@ Definition lg_step (g : lgraph) (o : op) (r : res) : lgraph :=
   | DeleteNode id, ROk _ =>
       {| lnodes := upd (lnodes g) id None;
          lrels := fun e => if lg_incident g id e then None else lrels g e |}
-  | CreateEdge a b t, ROk e => setr e (Some (a, b, t, []))
-  | CreateEdgeP a b t ps, ROk e => setr e (Some (a, b, t, pset_all ps []))
-  | CreateEdgeStub a b t, ROk e => setr e (Some (a, b, t, []))
+  | CreateEdge _ a b t, ROk e => setr e (Some (a, b, t, []))
+  | CreateEdgeP _ a b t ps, ROk e => setr e (Some (a, b, t, pset_all ps []))
+  | CreateEdgeStub _ a b t, ROk e => setr e (Some (a, b, t, []))
   | SetEdgeProp e k v, ROk _ =>
       match lrels g e with
       | Some (a, b, t, p) => setr e (Some (a, b, t, pset k v p))
@@ -583,11 +589,13 @@ Definition dump (s : state) (maxn maxe : N) : list (list N) :=
 Definition res_row (r : res) : list N :=
   match r with ROk v => [0; v] | RErr c => [1; c] end.
 
-Definition rows_eqb (a b : list (list N)) : bool := list_eqb (list_eqb N.eqb) a b.
+(* a row of small numbers (< 16) as one number: hexadecimal digits after a leading 1 *)
+Definition pack (r : list N) : N := fold_left (fun acc d => acc * 16 + d) r 1.
+Definition rows_eqb (a : list (list N)) (b : list N) : bool := list_eqb N.eqb (map pack a) b.
 
 (* one case: the operations, after each the implementation's result and (where observed)
    its dump *)
-Definition case := list (op * list N * option (N * N * list (list N)))%type.
+Definition case := list (op * list N * option (N * N * list N))%type.
 
 Fixpoint check_from (s : state) (c : case) : bool :=
   match c with
